@@ -23,6 +23,12 @@
     −gasUsed×price: the fee leaves the accounts until the miner is credited), `applySimple_gas`
     (gasUsed = intrinsic gas ≤ gasLimit), `mine_supply_partial` + `mineBlock_conserves_partial`
     (box-free blocks mined by a deputy with an income address conserve the total exactly).
+  * per account: `payer_charged`, `value_moves_on_success`, `not_included_free`, `miner_income`.
+  * boxes, exactly: `applyTx_box_supply`, `mine_supply_exact`, `mineBlock_supply_exact` (mint = Σ subGas × boxPrice).
+  * no negative balance: `balances_never_negative` (invariant `LedgerNonNeg.Inv` kept by admitted txs, whole candidate
+    lists and Finalize); outside that domain the total `setBal` goes negative exactly where Go panics
+    (`drained_pool_refund_is_a_go_panic`).
+  * EVM value flows / reverts / self-destruct: NOT modelled — judged by the contract-block oracle of `hx c05` only.
   * REFUTED on the code as it stands (kernel-checked witnesses, known findings):
     `box_mints` (a non-empty box pays its sub-txs' gas to the miner twice and reports gasUsed > gasLimit),
     `fee_vanishes_without_income` (chargeForGas silently drops the fee).
@@ -73,6 +79,7 @@ theorem doRegister_sum (c : Ctx) (s s' : St) (fr : Nat) (amt : Int) (flag : Nat)
     (h : doRegister c s fr amt flag inc nd = .ok s') : sumBal s' U = sumBal s U := by
   unfold doRegister at h
   simp only at h
+  split at h; · cases h
   split at h
   · -- first registration
     split at h; · cases h
